@@ -16,7 +16,7 @@ structure Win (s : St) : Prop where
 set_option maxHeartbeats 2000000 in
 theorem win_step {cfg : Cfg} {s s' : St} {l : Label} (hb : Basic cfg s) (h : Win s) (hs : step cfg s l = some s') :
     Win s' := by
-  obtain ⟨b1, b2, b3, b4, b5, b6, b7, b8, b9, b10, b11, b12, b13, b14, b15⟩ := hb
+  obtain ⟨b1, b2, b3, b4, b5, b6, b7, b8, b9, b10, b11, b12, b13, b14, b15, b16, b17, b18, b19, b20, b21⟩ := hb
   obtain ⟨w1, w2⟩ := h
   step_cases hs <;> (constructor <;> simp_all <;> grind)
 
@@ -100,10 +100,11 @@ theorem okComplete {cfg : Cfg} {s : St} (hc : 0 < cfg.c) (hfix : cfg.fix24 = tru
 /-! ### C07: a measure that every transition strictly decreases -/
 
 def pW : PPc → Nat
-  | .done => 0 | .waiting => 1 | .closing => 2 | .inEmit => 3 | .top => 4 | .have _ => 12
+  | .done => 0 | .waiting => 1 | .closing => 2 | .stopping => 3 | .inEmit => 4 | .top => 5 | .have _ => 13
 
 def cW : CPc → Nat
-  | .ret => 0 | .close2 => 1 | .close1 => 2 | .close0 => 3 | .sel => 4 | .check => 5 | .got => 6
+  | .ret => 0 | .close2 => 1 | .close1 => 2 | .closeP => 3 | .closeW => 4 | .close0 => 5 | .sel => 6 | .check => 7
+  | .got => 8
 
 /-- Remaining work: source elements and fault budget not yet used, every element weighted by the stages still ahead
     of it, goroutine program counters, the caller's cancel. -/
@@ -175,7 +176,8 @@ theorem progress_lib {cfg : Cfg} {s : St} (hc : 0 < cfg.c) (hb : Basic cfg s)
         · exact Or.inr ⟨.wExitClosed, rfl, by simp [step, hi, hsc, hcl]⟩
         · exact Or.inl ⟨rfl, by simpa using hcl, by simpa using hctx⟩
   match hp : s.prod with
-  | .top => exact Or.inr ⟨.pTop, rfl, by by_cases h : s.ctx1 = true <;> simp [step, hp, h]⟩
+  | .top => exact Or.inr ⟨.pTop, rfl, by by_cases h : s.pctx = true <;> simp [step, hp, h]⟩
+  | .stopping => exact Or.inr ⟨.pStop, rfl, by simp [step, hp]⟩
   | .inEmit =>
     have := hb.cursor_le
     by_cases h : s.cursor < cfg.n
@@ -193,7 +195,7 @@ theorem progress_lib {cfg : Cfg} {s : St} (hc : 0 < cfg.c) (hb : Basic cfg s)
     by_cases hroom : s.srcChan.length < cfg.c
     · exact Or.inr ⟨.pSend, rfl, by simp [step, hp, hroom]⟩
     · by_cases hctx : s.ctx1 = true
-      · exact Or.inr ⟨.pDrop, rfl, by simp [step, hp, hctx]⟩
+      · exact Or.inr ⟨.pDrop, rfl, by simp [step, hp, St.pctx]; simp [St.ctx1] at hctx; rcases hctx with h | h <;> simp [h]⟩
       · by_cases hi : 0 < s.wIdle
         · rcases hidle hi with ⟨h1, _, _⟩ | h
           · simp [h1] at hroom; omega
@@ -210,7 +212,29 @@ theorem progress {cfg : Cfg} {s : St} (hc : 0 < cfg.c) (hb : Basic cfg s) (hnf :
   match hcs : s.cons with
   | .check => exact ⟨.cCheck, rfl, by by_cases h : s.ctx0 = true <;> simp [step, hcs, h]⟩
   | .got => exact ⟨.cNext, rfl, by simp [step, hcs]⟩
-  | .close0 => exact ⟨.cClose0, rfl, by simp [step, hcs]⟩
+  | .close0 => exact ⟨.cClose0, rfl, by by_cases h : cfg.fix5 = true <;> simp [step, hcs, h]⟩
+  | .closeP => exact ⟨.cCloseP, rfl, by simp [step, hcs]⟩
+  | .closeW =>
+    -- the consumer waits for the producer, whose ctx is cancelled: the producer moves until it has signalled
+    have hpc : s.pcancel = true := by
+      have hfix : cfg.fix5 = true := by
+        cases h : cfg.fix5
+        · exact absurd hcs (hb.closeW_fix h)
+        · rfl
+      exact hb.cons_pcancel hfix (Or.inl hcs)
+    have hpctx : s.pctx = true := by simp [St.pctx, hpc]
+    match hp : s.prod with
+    | .top => exact ⟨.pTop, rfl, by simp [step, hp, hpctx]⟩
+    | .inEmit =>
+      have := hb.cursor_le
+      by_cases h : s.cursor < cfg.n
+      · exact ⟨.pEmitVal, rfl, by simp [step, hp, h]⟩
+      · exact ⟨.pEmitEof, rfl, by simp [step, hp]; omega⟩
+    | .have it => exact ⟨.pDrop, rfl, by simp [step, hp, hpctx]⟩
+    | .stopping => exact ⟨.pStop, rfl, by simp [step, hp]⟩
+    | .closing => exact ⟨.cCloseW, rfl, by simp [step, hcs, hb.pStop_iff.mpr (Or.inl hp)]⟩
+    | .waiting => exact ⟨.cCloseW, rfl, by simp [step, hcs, hb.pStop_iff.mpr (Or.inr (Or.inl hp))]⟩
+    | .done => exact ⟨.cCloseW, rfl, by simp [step, hcs, hb.pStop_iff.mpr (Or.inr (Or.inr hp))]⟩
   | .close1 => exact ⟨.cClose1, rfl, by simp [step, hcs]⟩
   | .close2 => exact ⟨.cClose2, rfl, by simp [step, hcs]⟩
   | .ret =>
